@@ -338,12 +338,18 @@ Row(
 # sketches with different face counts
 def _gen_lofted(rng, cls):
     nx, ny = rng.randint(1, 3), rng.randint(1, 3)
-    other = rng.choice([(nx + 1, ny), (nx, ny + 1), (max(1, nx - 1), ny + 2), (nx + 2, ny)])
-    if other[0] * other[1] == nx * ny:
-        other = (nx + 1, ny)
+    # the odd one out may have more or fewer faces than the others, and may be the start, the end or a middle sketch
+    while True:
+        other = (rng.randint(1, 4), rng.randint(1, 4))
+        if other[0] * other[1] != nx * ny:
+            break
     counts = {"1": [nx, ny], "2": [nx, ny], "mid": []}
     if cls == "end-differs":
         counts["2"] = list(other)
+        if rng.random() < 0.4:
+            counts["mid"] = [[nx, ny]]
+    elif cls == "start-differs":
+        counts["1"] = list(other)
         if rng.random() < 0.4:
             counts["mid"] = [[nx, ny]]
     elif cls == "mid-differs":
@@ -384,7 +390,7 @@ def _side_lofted(p):
 
 Row(
     "LoftedShape:face-counts", "face-count-mismatch",
-    {"end-differs": "reject", "mid-differs": "reject", "equal": "accept", "equal+mid": "accept"},
+    {"end-differs": "reject", "start-differs": "reject", "mid-differs": "reject", "equal": "accept", "equal+mid": "accept"},
     _gen_lofted, _side_lofted, _prep_lofted, weight=0.6,
 )
 
